@@ -17,6 +17,15 @@ def worker(args, scratch):
     def handler(name, req):
         own = hostdocs.own_calls_handler(name, req)
         if own is not None and req.header("x-vf-id") is None:
+            # host-side rejections of the agent's own calls (a request signed just before a rotation is rejected by a real
+            # host): whatever the agent does next (give up, retry), every request it emits must still pair id and MAC
+            if args.get("reject_permille"):
+                with lock:
+                    k = cnt["own_calls_seen"] = cnt.get("own_calls_seen", 0) + 1
+                h = (k * 2654435761 + args["shard"] * 40503) & 0xffffffff
+                if h % 1000 < args["reject_permille"]:
+                    bump("own_calls_rejected_by_host")
+                    return {"status": (401, 403, 401, 500)[(h >> 12) % 4], "body": b"rejected"}
             return own
         return {"status": 200, "body": b"ok"}
     env = {}
@@ -137,7 +146,7 @@ def run(tier, rep):
     for i in range(shards):
         args.append({"shard": i, "tier": tier, "clients": [8, 16, 32][i % 3], "generations": 600 if tier == "quick" else 6000,
                      "period_us": [0, 200, 1000, 2000][i % 4], "clear_every": 0 if i % 4 else 50, "delays": i % 2 == 0,
-                     "delay_permille": 500, "delay_us": 1500, "own_calls": i % 3 != 2})
+                     "delay_permille": 500, "delay_us": 1500, "own_calls": i % 3 != 2, "reject_permille": 300 if i % 4 in (1, 2) else 0})
     for res in sandbox.run_many("vf.props.c10", "worker", args, workers=shards, timeout=1500):
         rep.merge_worker(res)
     if rep.coverage.get("proxied_requests_straddling_a_rotation", 0) < 300 and not rep.violations:
